@@ -180,11 +180,12 @@ func generate(prop string, seed, idx uint64, build string, sites *work.SiteTable
 	case "C15":
 		return scheduled(work.GenC15(seed, idx), build, seed, idx)
 	case "C16":
-		var fs []string
+		var fs, hot []string
 		if sites != nil {
 			fs = sites.Funcs()
+			hot = sites.HotFuncs
 		}
-		return work.GenC16(seed, idx, build, fs)
+		return work.GenC16(seed, idx, build, fs, hot)
 	case "C18":
 		return work.GenC18(seed, idx, build)
 	}
